@@ -118,17 +118,61 @@ func TestC13WriterSink(t *testing.T) {
 				}
 			}
 		}
+		// how the bytes got into the event: as a literal table, through FormattedAs, through FormattedAs after an
+		// earlier value for the same format (the last writer wins, also when it writes nil), or into an event derived
+		// from another event's Format() result which is then re-formatted
+		via := rapid.SampledFrom([]string{"literal", "literal", "FormattedAs", "overwrite", "derived"}).Draw(t, "via")
+		mkEvent := func(tb map[string][]byte, i int) *eventlogger.Event {
+			switch via {
+			case "FormattedAs", "overwrite":
+				ev := &eventlogger.Event{Type: "t"}
+				for k, v := range tb {
+					if via == "overwrite" {
+						ev.FormattedAs(k, []byte(fmt.Sprintf("<%d>SUPERSEDED-VALUE-OF-%s-------------------------------------------------------------------------------------------------", i, k)))
+					}
+					if len(v) == 0 && via == "overwrite" {
+						ev.FormattedAs(k, nil) // the last writer stores "no bytes"
+						continue
+					}
+					ev.FormattedAs(k, v)
+				}
+				return ev
+			case "derived":
+				src := &eventlogger.Event{Type: "t"}
+				derived := &eventlogger.Event{Type: "t", Formatted: map[string][]byte{}}
+				for k, v := range tb {
+					src.FormattedAs(k, v)
+					got, _ := src.Format(k)
+					derived.Formatted[k] = got
+				}
+				for k, v := range tb { // the source event is formatted again (same lengths): the derived event keeps its bytes
+					src.FormattedAs(k, bytes.Repeat([]byte("#"), len(v)))
+				}
+				return derived
+			}
+			return &eventlogger.Event{Type: "t", Formatted: tb}
+		}
 		var wg sync.WaitGroup
-		for _, c := range calls {
+		for i, c := range calls {
+			// the table the oracle uses is a private copy of what goes into the event
+			private := map[string][]byte{}
+			for k, v := range c.tb.table {
+				if v == nil {
+					private[k] = nil
+				} else {
+					private[k] = append([]byte{}, v...)
+				}
+			}
+			ev := mkEvent(c.tb.table, i)
+			c.tb.table = private
 			wg.Add(1)
 			go func(c *call) {
 				defer wg.Done()
-				ev := &eventlogger.Event{Type: "t", Formatted: c.tb.table}
 				c.out, c.err = sink.Process(context.Background(), ev)
 			}(c)
 		}
 		wg.Wait()
-		desc := fmt.Sprintf("writer.Sink{Format:%q} writerMode=%d concurrency=%d tables=", cfgFmt, mode, nconc)
+		desc := fmt.Sprintf("writer.Sink{Format:%q} writerMode=%d concurrency=%d via=%s tables=", cfgFmt, mode, nconc, via)
 		for _, c := range calls {
 			desc += c.tb.desc
 		}
